@@ -14,6 +14,7 @@ import (
 
 	"github.com/hedzr/is/term/color"
 	"github.com/hedzr/logg/slog"
+	errorsv3 "gopkg.in/hedzr/errors.v3"
 
 	"verif/engine/sched"
 )
@@ -26,7 +27,7 @@ const (
 type c09call struct {
 	Format string `json:"format"`
 	Sev    int    `json:"severity"`
-	Shape  string `json:"shape"` // plain | attrs | rich | verb
+	Shape  string `json:"shape"`  // plain | attrs | rich | verb
 	Target string `json:"target"` // probed | sibling | default
 }
 
@@ -40,6 +41,9 @@ type c09case struct {
 	Caller  bool      `json:"caller_flag"`
 	Choices []int     `json:"choices,omitempty"`
 }
+
+// an errors.v3 error with stack info, created once at a source line different from every log call
+var c09v3err = errorsv3.New("v3 error with stack")
 
 type c09world struct {
 	rec     *recorder
@@ -85,6 +89,11 @@ func (w *c09world) issue(k c09call) {
 		l.WriteThru(bg, sev, fixedTime, 0, "with attributes", slog.Attrs{slog.NewAttr("s", "a b"), slog.NewAttr("i", 42), slog.NewAttr("t", tsUTC), slog.NewAttr("d", time.Second)})
 	case "rich":
 		l.WriteThru(bg, sev, fixedTime, 0, "line one\nline two\nline three", slog.Attrs{slog.Group("g", "x", 1, slog.Group("h", "y", "z")), slog.NewAttr("err", errors.New("boom")), slog.NewAttr("bytes", []byte("raw"))})
+	case "rich-eol":
+		l.WriteThru(bg, sev, fixedTime, 0, "first line\nsecond line\n", slog.Attrs{slog.NewAttr("err", errors.New("boom")), slog.NewAttr("k", 1)})
+	case "egroup":
+		// an empty group that sorts last, and one in the middle
+		l.WriteThru(bg, sev, fixedTime, 0, "with empty groups", slog.Attrs{slog.NewAttr("a", 1), slog.Group("m"), slog.NewAttr("n", 2), slog.Group("zone")})
 	case "verb-small":
 		// few attributes (size-dependent recycling of the per-call attribute slice)
 		switch sev {
@@ -97,7 +106,7 @@ func (w *c09world) issue(k c09call) {
 		}
 	case "verb":
 		// through the verb path (collectArgs, the attribute pool, the time seam)
-		l.LogAttrs(bg, sev, "via verb", "k", 1, slog.Group("g", "x", 1), "z", "last")
+		l.LogAttrs(bg, sev, "via verb", "k", 1, slog.Group("g", "x", 1), "z", "last", "e3", c09v3err)
 	}
 }
 
@@ -105,7 +114,7 @@ func c09calls(thorough bool) (hist, probes []c09call) {
 	sevs := []slog.Level{slog.InfoLevel, slog.ErrorLevel, slog.TraceLevel, c09Colored, c09Unknown}
 	for _, f := range []string{"color", "json", "logfmt"} {
 		for _, s := range sevs {
-			for _, sh := range []string{"plain", "attrs", "rich", "verb", "verb-small"} {
+			for _, sh := range []string{"plain", "attrs", "rich", "rich-eol", "egroup", "verb", "verb-small"} {
 				probes = append(probes, c09call{f, int(s), sh, "probed"})
 			}
 		}
@@ -113,7 +122,7 @@ func c09calls(thorough bool) (hist, probes []c09call) {
 	// history alphabet: a representative subset issued on the probed logger, a sibling and the default logger
 	for _, f := range []string{"color", "json", "logfmt"} {
 		for _, s := range []slog.Level{slog.ErrorLevel, c09Colored, slog.TraceLevel} {
-			for _, sh := range []string{"rich", "verb", "verb-small", "plain"} {
+			for _, sh := range []string{"rich", "rich-eol", "egroup", "verb", "verb-small", "plain"} {
 				if !thorough && (sh == "plain" || sh == "verb-small") && s != slog.TraceLevel && s != slog.ErrorLevel {
 					continue
 				}
@@ -220,10 +229,10 @@ func c09run(c *Ctx) {
 			return
 		}
 		for _, h := range hist {
-			if len(p) == 2 && h.Shape != "rich" && h.Shape != "verb" && h.Shape != "verb-small" {
+			if len(p) == 2 && h.Shape != "rich" && h.Shape != "verb" && h.Shape != "verb-small" && h.Shape != "egroup" && h.Shape != "rich-eol" {
 				continue // third history element: the shapes that touch the most state
 			}
-			if !c.Thorough() && len(p) == 1 && (h.Shape == "plain" || h.Shape == "rich" && h.Target == "default" || slog.Level(h.Sev) == slog.TraceLevel) {
+			if !c.Thorough() && len(p) == 1 && (h.Shape == "plain" || (h.Shape == "rich" || h.Shape == "rich-eol" || h.Shape == "egroup") && h.Target != "probed" || slog.Level(h.Sev) == slog.TraceLevel) {
 				continue // quick: second history element from the state-heavy half of the alphabet
 			}
 			rec(append(p, h))
@@ -237,6 +246,14 @@ func c09run(c *Ctx) {
 		for pi, p := range probes {
 			// histories of length 3: every probe meets every history in some caller setting; length <=2: both caller settings
 			callers := []bool{false, true}
+			if len(h) == 2 && !c.Thorough() {
+				// quick: two-call histories meet every probe shape and format, with the caller flag alternating
+				// and the severities that have / have no registered colours
+				callers = []bool{(hi+pi)%2 == 0}
+				if sv := slog.Level(p.Sev); sv == slog.InfoLevel || sv == slog.TraceLevel {
+					continue
+				}
+			}
 			if len(h) >= 3 {
 				callers = []bool{(hi+pi)%2 == 0}
 				if (hi+pi)%3 != 0 {
